@@ -392,6 +392,35 @@ def float_order_stub(orig):
 # ---------------------------------------------------------------------------
 # proving with / without the root constraints
 # ---------------------------------------------------------------------------
+import os as _os
+CROSSCHECK = dict(on=_os.environ.get('VERIF_TIER') == 'thorough' or bool(
+    _os.environ.get('VERIF_CROSSCHECK')), budget=12)
+
+
+def cvc5_verdict(smt2, tlimit_ms=10000):
+  """Second opinion on a final query (cvc5 1.4 wheel, Python API): returns
+  'unsat', 'sat', 'unknown' or 'error'."""
+  try:
+    import cvc5
+    slv = cvc5.Solver()
+    slv.setOption('tlimit-per', str(tlimit_ms))
+    slv.setLogic('QF_NIRA')
+    par = cvc5.InputParser(slv)
+    par.setStringInput(cvc5.InputLanguage.SMT_LIB_2_6, smt2, 'q')
+    sm = par.getSymbolManager()
+    out = 'unknown'
+    while True:
+      cmd = par.nextCommand()
+      if cmd.isNull():
+        break
+      r = str(cmd.invoke(slv, sm)).strip()
+      if r in ('sat', 'unsat', 'unknown'):
+        out = r
+    return out
+  except Exception:  # pylint: disable=broad-except
+    return 'error'
+
+
 def prove(eng_, prop, extra=(), drop_sqrt=False, timeout_ms=60000,
           with_defs=False):
   """pc /\\ extra /\\ not prop.  drop_sqrt removes the r>=0 /\\ r*r==rad
@@ -421,6 +450,15 @@ def prove(eng_, prop, extra=(), drop_sqrt=False, timeout_ms=60000,
   eng_.stats['solver_s'] += time.time() - t0
   if r == z3.unsat:
     eng_.stats['final_unsat'] += 1
+    if CROSSCHECK['on'] and CROSSCHECK['budget'] > 0:
+      CROSSCHECK['budget'] -= 1
+      v = cvc5_verdict(s.to_smt2())
+      eng_.stats['cvc5_' + v] = eng_.stats.get('cvc5_' + v, 0) + 1
+      if v == 'sat':
+        # the second solver disagrees with z3's unsat: do not trust it
+        eng_.stats['final_unsat'] -= 1
+        eng_.stats['final_unknown'] += 1
+        return 'unknown', None
     return 'unsat', None
   if r == z3.sat:
     eng_.stats['final_sat'] += 1
